@@ -26,8 +26,11 @@ PY_ESCAPES = ["\\x", "\\N", "\\u", "\\U"]
 def observe(text):
     from vyxal.transpile import transpile
 
+    dc = True
+    if text.startswith("\x00D"):          # marker: transpile with dictionary compression off (flag D)
+        text, dc = text[2:], False
     try:
-        code = transpile(text)
+        code = transpile(text, dc)
     except RecursionError:
         return {"text": cps(text), "err": "RecursionError", "compiled": False, "lines": [], "cmp": False}
     except Exception as e:  # noqa: BLE001
@@ -41,8 +44,11 @@ def observe(text):
         cerr = str(e)[:120]
     ls = emit.line_structure(code)
     odd = any(l["odd"] for l in ls)
-    return {"text": cps(text), "err": "", "compiled": ok, "cerr": cerr,
-            "lines": [{"ind": l["ind"], "k": l["k"]} for l in ls], "cmp": not odd and len(ls) <= 400}
+    return {"text": cps(text), "err": "", "compiled": ok, "cerr": cerr, "dc": dc,
+            "lines": [{"ind": l["ind"], "k": l["k"]} for l in ls],
+            # a backslash-newline inside a string literal is a Python line continuation: the literal spans two
+            # physical lines, which the line projector does not model
+            "cmp": not odd and len(ls) <= 400 and "\\\n" not in text}
 
 
 def trailing(text):
@@ -82,6 +88,18 @@ def cases(tier, rng):
     for e in PY_ESCAPES:
         out.append("`" + e + "`")
         out.append("`ab" + e + "`")
+    # every string body <= 3 over the escape-relevant characters, as back-quoted and two-character strings,
+    # closed and end-truncated, alone and inside structures, with compression on and off
+    import itertools
+    esc = "\\`\"'\nan"
+    for L in range(0, 4):
+        for tup in itertools.product(esc, repeat=L):
+            b = "".join(tup)
+            for lit in ("`" + b + "`", "`" + b, "‛" + b[:2]):
+                for ctx in ("□", "[□|2]", "λ□;", "⟨□⟩"):
+                    p = ctx.replace("□", lit)
+                    out.append(p)
+                    out.append("\x00D" + p)
     return list(dict.fromkeys(out))
 
 
@@ -113,7 +131,7 @@ def main(tier):
         tally[key] = tally.get(key, 0) + 1
         head = v.split(":")[0]
         if head == "violation":
-            V.add(signature(p, o.get("cerr", "")), {"program": p, "verdict": v, "compile_error": o.get("cerr", ""),
+            V.add(signature(p.replace("\x00D", "[D]"), o.get("cerr", "")), {"program": p.replace("\x00D", "[flag D] "), "verdict": v, "compile_error": o.get("cerr", ""),
                                                      "replay": f"transpile({p!r})"})
         elif head in ("drift", "specviolation"):
             V.add_drift({"program": p, "verdict": v})
